@@ -68,6 +68,11 @@ def c13_project(seed, nfiles, mode, reps):
     rcn, nout, _ = gen_once(noisy, mode)
     cases.append(Case(dict(desc, what="noise"), {"noise_irrelevant": {k: v for k, v in nout.items() if k != ".typecache"}
                                                == {k: v for k, v in base.items() if k != ".typecache"}}))
+    # white space only: CRLF line endings, tabs for indentation, trailing blanks, blank lines between items
+    ws = {k: v.replace("    ", "\t").replace("\n", "  \r\n").replace("}  \r\n", "}  \r\n\r\n\r\n") for k, v in files.items()}
+    rcw, wout, _ = gen_once(ws, mode)
+    cases.append(Case(dict(desc, what="whitespace"), {"whitespace_irrelevant": rcw == 0 and {k: v for k, v in wout.items() if k != ".typecache"}
+                                                      == {k: v for k, v in base.items() if k != ".typecache"}}))
     for what, tr in (("reorder", projgen.reorder), ("move", projgen.move_items), ("split", projgen.split_helpers)):
         rct, tout, _ = gen_once(projgen.render(tr(p, seed + 2)), mode)
         ok = rct == 0 and all(sorted(proc.blocks(tout.get(n, ""))) == sorted(proc.blocks(base[n]))
@@ -669,6 +674,21 @@ def cases_c16(ctx):
                 if tier != "thorough" and k % 3 != 0 and layout in ("backslash", "spaces", "dotted"):
                     continue
                 jobs.append((layout, path_kind, ("none", "zod")[k % 2], seq, seed * 10 + k % 3, ctx["tables"]))
+    # systematic: every sequence of up to three actions (thorough: all 9 + 81 + 729 on one layout; quick: one in ten,
+    # rotating with the seed)
+    acts = ["generate", "build", "generate_viz", "touch_source", "drop_commands", "tamper_cache", "block_probe", "unblock_probe", "cache_dir"]
+    runs = {"generate", "build", "generate_viz"}
+    seqs3, cur = [], [[]]
+    for _ in range(3):
+        cur = [q + [a] for q in cur for a in acts]
+        seqs3 += cur
+    k = 0
+    for q in seqs3:
+        if q[-1] not in runs or not any(a in runs for a in q):
+            continue
+        k += 1
+        if tier == "thorough" or k % 10 == seed % 10:
+            jobs.append((("beside", "nested", "up")[k % 3], ("rel", "abs")[k % 2], ("none", "zod")[(k // 2) % 2], q, seed * 10 + k % 3, ctx["tables"]))
     out = list(POOL.map(lambda a: c16_case(*a), jobs))
     for k, mode in enumerate(("none", "zod")):
         out.append(c16_subdir_case(mode, seed * 10 + k))
